@@ -12,6 +12,7 @@ import (
 // Ctx carries the loaded program plus the derived call graph and entry points.
 type Ctx struct {
 	Repo, Verif, Tier string
+	maxDepthSeen     int
 	P                 *Program
 
 	edges      map[*ssa.Function][]Edge
